@@ -1751,6 +1751,11 @@ class NodeRequire:
                     )
                 except FileNotFoundError:
                     data = None
+                except OSError:
+                    raise CklRuntimeError(
+                        ValueString("ERROR"),
+                        f"Cannot read module {modulefile[:-4]}",
+                        self.pos)
                 if data:
                     modulesrc = data.decode("utf-8")
                 else:
@@ -1759,8 +1764,7 @@ class NodeRequire:
                     modulesrc = None
                     filepath = os.path.join(modulepath, filename)
                     if os.path.exists(filepath):
-                        with open(filepath, encoding="utf-8") as infile:
-                            modulesrc = infile.read()
+                        modulesrc = self.readModuleFile(filepath)
                     elif environment.isDefined("checkerlang_module_path"):
                         for modulepath in environment.get(
                                 "checkerlang_module_path",
@@ -1770,11 +1774,8 @@ class NodeRequire:
                                 modulepath.value, filename
                             )
                             if os.path.exists(filepath):
-                                with open(
-                                    filepath, encoding="utf-8"
-                                ) as infile:
-                                    modulesrc = infile.read()
-                                    break
+                                modulesrc = self.readModuleFile(filepath)
+                                break
                     if modulesrc is None:
                         raise CklRuntimeError(
                             ValueString("ERROR"),
@@ -1814,6 +1815,16 @@ class NodeRequire:
                 obj.addItem(name, val)
             environment.put(modulename, obj)
         return NULL
+
+    def readModuleFile(self, filepath):
+        try:
+            with open(filepath, encoding="utf-8") as infile:
+                return infile.read()
+        except Exception:
+            raise CklRuntimeError(
+                ValueString("ERROR"),
+                f"Cannot read module file {filepath}",
+                self.pos)
 
     def __repr__(self):
         return (
